@@ -41,6 +41,7 @@ pub fn alone(sc: &Scenario, k: usize) -> Arc<Alone> {
         flush_alts: false,
         shutdown_alts: false,
         every_offset: false,
+        buffered: false,
     };
     let mut ch = Chooser::new(vec![]);
     let ex = driver::run(&single, &mut ch);
@@ -360,6 +361,8 @@ fn prog_menu() -> Vec<(&'static str, HandlerProgram)> {
         ("streamEmptyChunk", HandlerProgram::ok(BodySpec::BodyStream(vec![d(b"aa"), Chunk::Empty, d(b"bb")]))),
         ("customShort", HandlerProgram::ok(BodySpec::Custom(SizeDecl::Sized(5), vec![d(b"ab")]))),
         ("customLong", HandlerProgram::ok(BodySpec::Custom(SizeDecl::Sized(3), vec![d(b"abc"), d(b"def")]))),
+        ("customLongMid", HandlerProgram::ok(BodySpec::Custom(SizeDecl::Sized(4), vec![d(b"abc"), d(b"def")]))),
+        ("sizedLongMid", HandlerProgram::ok(BodySpec::SizedStream(4, vec![d(b"abc"), d(b"def")]))),
         ("streamErr", HandlerProgram::ok(BodySpec::BodyStream(vec![d(b"ab"), Chunk::Err]))),
         ("sizedErr", HandlerProgram::ok(BodySpec::SizedStream(4, vec![d(b"ab"), Chunk::Err]))),
         ("customNone", HandlerProgram::ok(BodySpec::Custom(SizeDecl::None, vec![]))),
@@ -391,7 +394,7 @@ pub fn scenarios(tier: &str) -> Vec<Scenario> {
     }
     // pairs: the first handler is pending when the second head is decoded
     let first_reqs = ["GET11", "HEAD11", "POST11cl", "GET10ka", "GET11close", "POST11expect"];
-    let first_progs = ["bytes", "stream", "204body", "customEmptyChunk", "customShort", "streamErr"];
+    let first_progs = ["bytes", "stream", "204body", "customEmptyChunk", "customShort", "streamErr", "customLongMid"];
     let second_reqs = ["GET11", "HEAD11", "POST11cl", "GET10", "GET10ka", "GET11close", "HEAD10ka"];
     let second_progs = ["bytes", "stream", "empty", "streamErr"];
     let get = |n: &str| reqs.iter().find(|(k, _)| *k == n).unwrap().1.clone();
